@@ -1,8 +1,5 @@
 package main
 
-func genPrinter(env *constEnv, as *pkgInfo) string {
-	return "(* GENERATED stub *)\n"
-}
 func genEffects(pkgs []*pkgInfo) string {
 	return "(* GENERATED stub *)\n"
 }
